@@ -310,6 +310,8 @@ def _reuse_scenarios(quick, seed):
     # principal mapping given, then withdrawn
     scns.append({"id": "reuse/principal-withdrawn", "target": tgt(2), "writer": {"blamed": "main", "skip": True, "principal": {"region": "code", "off": 64}},
                  "history": [{"op": "dump"}, {"op": "set", "writer": {"principal": "unset"}}, {"op": "dump"}]})
+    scns.append({"id": "reuse/principal-unresolvable-later", "target": tgt(2), "writer": {"blamed": "main", "skip": True, "principal": {"region": "code", "off": 64}},
+                 "history": [{"op": "dump"}, {"op": "set", "writer": {"principal": "0x30"}}, {"op": "dump"}]})
     for k in range(0 if quick else 40):
         n = rnd.randrange(1, 6)
         hist = []
